@@ -8,7 +8,7 @@ DEFAULT_THOROUGH = dict(checks=20000, shards=16, budget_s=600, timeout_s=1800)
 
 
 def entry(pid, engine, test=None, level="exploration", technique="", quick=None, thorough=None,
-          race=False, min_nt=2, design_ref="", level_text="", level_note="", env=None, title="", crashcap=False):
+          race=False, min_nt=2, design_ref="", level_text="", level_note="", env=None, title="", crashcap=True):
     q = dict(DEFAULT_QUICK)
     q.update(quick or {})
     t = dict(DEFAULT_THOROUGH)
